@@ -995,8 +995,13 @@ impl Walrus {
         let mut entries_parsed = 0u32;
         let mut saw_tail = false;
 
+        // Set when the byte budget ends the batch inside a planned range: ranges planned after it
+        // (later blocks, the tail) must then be left alone, or their entries would be delivered -
+        // and the cursor moved past this block - while entries of this block are still pending
+        let mut budget_exhausted = false;
+
         for (plan_idx, read_plan) in plan.iter().enumerate() {
-            if entries.len() >= MAX_BATCH_ENTRIES {
+            if entries.len() >= MAX_BATCH_ENTRIES || budget_exhausted {
                 break;
             }
             let buffer = &buffers[plan_idx];
@@ -1044,6 +1049,7 @@ impl Walrus {
                     .checked_add(data_size)
                     .unwrap_or(usize::MAX);
                 if next_total > max_bytes && !entries.is_empty() {
+                    budget_exhausted = true;
                     break;
                 }
 
